@@ -1,4 +1,5 @@
 import Capella.Lemmas.GitTxn
+import Capella.Lemmas.GitPush
 
 /-!
 # C16 — saving to a git repository creates exactly one faithful commit, or none
@@ -12,6 +13,12 @@ work tree (`head`, `index`, `files`); `fault` names the git command that fails, 
 `Valid s` says the handler is between transactions with a clean work tree (`git status` empty);
 `Restored s s'` says refs, HEAD, files and index content are as in `s` and no transaction is open.
 `writeOps ws` is a body that writes and closes the files `ws` (in order; later writes win).
+
+Push.  `transactionPush fault rev o po body s rem` is the same `with` block with `push=po.push`, together
+with the refs `rem` of the remote `origin` (`Model/GitPush.lean`).  The remote accepts a push iff it does
+not decline (`po.declines`: hook, unreachable, not configured) and the update is a fast-forward
+(`remoteAccepts`).  With `po.push = false` it *is* `transaction` (`push_off_is_transaction`), so the
+theorems above are the `push=False` case.
 -/
 namespace Capella.Props.C16
 open Capella.Git
@@ -119,6 +126,68 @@ theorem hash_is_objectlike (s : Str) (h4 : 4 ≤ s.length) (hx : s.all isHex = t
 theorem write_needs_txn (s : St P) (h : s.txnOpen = false) : openWrite s = (s, some .needsTxn) := by
   simp [openWrite, h]
 
+
+/-! ## Push: the remote sees exactly one commit, or none -/
+
+/-- Without `push` the transaction with a remote is the transaction without one, and the remote is
+untouched: every theorem of this file about `transaction` is the `push=False` instance. -/
+theorem push_off_is_transaction (fault : Option Nat) (rev : Str) (o : Opts) (po : PushOpts) (body : List (Op P))
+    (s : St P) (rem : Remote) (h : po.push = false) :
+    transactionPush fault rev o po body s rem = (transaction fault rev o body s, rem) :=
+  transactionPush_off fault rev o po body s rem h
+
+/-- **The remote sees one commit or none** — for every body, every failing git command (the push and the
+restoring `update-ref` included), every option set and every state of the remote: after the transaction
+the remote's refs are exactly as before, or the transaction reported success, was a real (non-dry)
+pushing one that the remote did not decline, and exactly the remote's target ref was set — to the
+handler's new HEAD, which is also where the local target ref points. -/
+theorem remote_sees_one_commit_or_none (fault : Option Nat) (rev : Str) (o : Opts) (po : PushOpts)
+    (body : List (Op P)) (s : St P) (rem : Remote) :
+    let r := transactionPush fault rev o po body s rem
+    r.2 = rem ∨
+    (r.1.2 = none ∧ po.push = true ∧ o.dry = false ∧ po.declines = false ∧
+      r.2 = setRef rem (qualify (o.remoteBranch.getD rev)) r.1.1.head ∧
+      getRef r.1.1.refs (qualify (o.remoteBranch.getD rev)) = some r.1.1.head) :=
+  transactionPush_remote fault rev o po body s rem
+
+/-- **A pushing save** (no git failure, clean handler, something to commit): exactly one commit is created,
+with the handler's HEAD as parent and the written files over the parent's tree.  If the remote accepts it
+(does not decline, fast-forward), local and remote target ref both point at it and HEAD follows.  If the
+remote refuses, the caller sees the git error, the remote is untouched, every local ref answers as
+before the transaction (the branch was put back), HEAD, files and index are those from before; in both
+cases the handler is clean again (`Valid`), so the next transaction of any sequence starts from a state
+these theorems apply to. -/
+theorem push_spec (rev : Str) (o : Opts) (po : PushOpts) (ws : List (P × Bytes)) (s : St P) (rem : Remote)
+    (hv : Valid s) (hobj : objectLike (o.remoteBranch.getD rev) = false) (hp : po.push = true)
+    (hd : o.dry = false)
+    (hn : o.ignoreEmpty = false ∨ (applyWrites ws s.index).same (treeOf s s.head) = false) :
+    let r := transactionPush none rev o po (writeOps ws) s rem
+    let k : Commit P := { parent := some s.head, tree := applyWrites ws s.index, info := o.info }
+    let target := qualify (o.remoteBranch.getD rev)
+    r.1.1.commits = s.commits ++ [k] ∧ Valid r.1.1 ∧
+    ((remoteAccepts po.declines (s.commits ++ [k]) rem target s.commits.length = true ∧
+        r.1.2 = none ∧ r.2 = setRef rem target s.commits.length ∧
+        r.1.1.refs = setRef s.refs target s.commits.length ∧ r.1.1.head = s.commits.length) ∨
+     (remoteAccepts po.declines (s.commits ++ [k]) rem target s.commits.length = false ∧
+        r.1.2 = some .gitfail ∧ r.2 = rem ∧ SameRefs r.1.1.refs s.refs ∧ r.1.1.head = s.head ∧
+        r.1.1.files = s.files ∧ (∀ p, r.1.1.index.get p = s.index.get p))) :=
+  push_spec' rev o po ws s rem hv hobj hp hd hn
+
+/-- **Any failing command, with or without push**: the transaction is closed afterwards, and the local
+refs answer as before, or the transaction reported success and exactly the target ref was set to the
+new commit, or — only with `push=True` — the caller sees the git error and the branch still has the
+commit because the very `update-ref` that puts it back after a refused push was itself refused. -/
+theorem push_failure_refs_safe (fault : Option Nat) (rev : Str) (o : Opts) (po : PushOpts) (body : List (Op P))
+    (s : St P) (rem : Remote) (ho : s.txnOpen = false) :
+    let r := transactionPush fault rev o po body s rem
+    r.1.1.txnOpen = false ∧
+    (SameRefs r.1.1.refs s.refs ∨
+      (r.1.2 = none ∧ o.dry = false ∧
+        r.1.1.refs = setRef s.refs (qualify (o.remoteBranch.getD rev)) s.commits.length) ∨
+      (r.1.2 = some .gitfail ∧ po.push = true ∧
+        r.1.1.refs = setRef s.refs (qualify (o.remoteBranch.getD rev)) s.commits.length)) :=
+  transactionPush_refs_safe fault rev o po body s rem ho
+
 /-! ## The pinned code before the repairs did not have the property -/
 
 section witness
@@ -146,7 +215,47 @@ theorem pinned_remote_branch_parent :
     r1.1.head = 1 ∧ (r2.1.commits[2]?).map (·.parent) = some (some 0) := by
   decide
 
+/-- before `fix: take the commit off the local branch again when the push fails`: the remote's `master`
+has a commit the handler does not know (id 7: somebody else pushed), the push is rejected as
+non-fast-forward, the caller sees the git error and the work tree is rolled back — but the local
+`master` keeps the new commit. -/
+theorem pinned_refused_push_keeps_commit :
+    let r := transactionPushOld none w_rev {} { push := true } (writeOps [(1, [11])]) w_s [(w_rev, 7)]
+    r.1.2 = some .gitfail ∧ r.2 = [(w_rev, 7)] ∧ r.1.1.head = 0 ∧ getRef r.1.1.refs w_rev = some 1 := by
+  decide
+
 /-! ## Non-vacuity -/
+
+/-- the repaired code on the same history: refused, remote untouched, `master` back at commit 0 -/
+example :
+    let r := transactionPush none w_rev {} { push := true } (writeOps [(1, [11])]) w_s [(w_rev, 7)]
+    r.1.2 = some .gitfail ∧ r.2 = [(w_rev, 7)] ∧ r.1.1.head = 0 ∧ getRef r.1.1.refs w_rev = some 0 ∧
+    r.1.1.commits.length = 2 := by
+  decide
+
+/-- a remote in sync takes the push: remote and local `master` at the new commit; a second pushing save goes on top -/
+example :
+    let r1 := transactionPush none w_rev {} { push := true } (writeOps [(1, [11])]) w_s [(w_rev, 0)]
+    let r2 := transactionPush none w_rev {} { push := true } (writeOps [(2, [21])]) r1.1.1 r1.2
+    r1.1.2 = none ∧ getRef r1.2 w_rev = some 1 ∧ getRef r1.1.1.refs w_rev = some 1 ∧
+    r2.1.2 = none ∧ getRef r2.2 w_rev = some 2 ∧ (r2.1.1.commits[2]?).map (·.parent) = some (some 1) := by
+  decide
+
+/-- a new remote branch is created; a declining remote (hook) refuses even a fast-forward -/
+example :
+    let o : Opts := { remoteBranch := some "out".toList }
+    let r1 := transactionPush none w_rev o { push := true } (writeOps [(1, [11])]) w_s [(w_rev, 0)]
+    let r2 := transactionPush none w_rev {} { push := true, declines := true } (writeOps [(1, [11])]) w_s [(w_rev, 0)]
+    getRef r1.2 "refs/heads/out".toList = some 1 ∧ getRef r1.2 w_rev = some 0 ∧
+    r2.1.2 = some .gitfail ∧ r2.2 = [(w_rev, 0)] ∧ getRef r2.1.1.refs w_rev = some 0 := by
+  decide
+
+/-- the restoring `update-ref` refused (command 9: rev-parse HEAD, add, rev-parse target, write-tree, cat-file,
+commit-tree, reset --soft, update-ref, push, update-ref): the third case of `push_failure_refs_safe` -/
+example :
+    let r := transactionPush (some 9) w_rev {} { push := true } (writeOps [(1, [11])]) w_s [(w_rev, 7)]
+    r.1.2 = some .gitfail ∧ getRef r.1.1.refs w_rev = some 1 ∧ r.2 = [(w_rev, 7)] := by
+  decide
 
 example : Valid w_s := by
   refine ⟨rfl, by decide, ?_, ?_⟩ <;> intro p <;> rfl
